@@ -13,6 +13,7 @@
     select_eq_xp_chain_attribute select_eq_xp_chain_attribute_default
     pattern_matches_eq_xp
     parser_accepts_subset_partial parser_accepts_steps_partial
+    parse_print_tokens
 -/
 import Genshi.Model.Path
 import Genshi.Model.PathParse
@@ -25,6 +26,7 @@ import Genshi.Lemmas.PathSelect
 import Genshi.Lemmas.PathChain
 import Genshi.Lemmas.PathParseChain
 import Genshi.Lemmas.PathParseSteps
+import Genshi.Lemmas.PathPrintPath
 import Genshi.Lemmas.PathChildPath
 import Genshi.Lemmas.PathUnion
 import Genshi.Lemmas.PathNonPos
@@ -239,6 +241,49 @@ example : parse "a[@n<=2 and not(@m)]/b//text()[2]|.//@x:y".toList = .ok
       ⟨.child, .localName false ['b'], []⟩, ⟨.descendantOrSelf, .node, []⟩,
       ⟨.child, .text, [.num (.dec false 2 0)]⟩],
      [⟨.self, .node, []⟩, ⟨.descendantOrSelf, .node, []⟩, ⟨.attribute, .qname true ['x'] ['y'], []⟩]] := by
+  decide +kernel
+
+
+/-! ### The printer: `parse ∘ print = id` -/
+
+/-- **parser_accepts_subset, token level, for the whole AST.**  `Print.pathsToks` spells a union
+    of location paths — steps as `axis::test[pred]…` joined by `/`, operands joined by `|`,
+    node tests `*`, `p:*`, `name`, `p:name`, `comment()`, `node()`, `text()`,
+    `processing-instruction()`, `processing-instruction("t")`, predicates with `or`, `and`,
+    `=`, `!=`, `<`, `<=`, `>`, `>=` (parentheses exactly where precedence / left-associativity
+    need them), attribute and element name tests, string literals, numbers, `$variables` and
+    calls of every function of `_function_map` including n-ary `concat` — and genshi's
+    recursive-descent parser (`at_end` quirk, fuel and all) reads exactly that AST back, for
+    EVERY AST in the printer's domain `Print.pathsOk` (a decidable syntactic condition: names
+    are name tokens, a literal does not contain both quote characters, the attribute flag of a
+    name test agrees with its axis, `concat` chains are well-formed with ≤ 99 arguments, a
+    numeral denotes its number — `Print.numOk`, see `numOk_examples`; no `matches` with three
+    arguments, no node-type test or `.` inside a predicate: the real parser has no spelling for
+    those either).  `select_eq_xp_*` therefore speak about what `Path(text)` does for the text
+    `Print.printPaths p` as soon as `tokenize (printPaths p) = pathsToks p` (`print_tokenize`). -/
+theorem parse_print_tokens (ps : List LocPath) (h : Print.pathsOk ps = true) :
+    parseTokens (Print.pathsToks ps) = .ok ps :=
+  Print.parseTokens_print ps h
+
+/-- `child::a[(@x or @y) and @z = 1.50][not(@a < (1 < 2))]/descendant::text()[2]|attribute::p:*` -/
+def printDemo : List LocPath :=
+  [[⟨.child, .localName false ['a'],
+      [.and_ (.or_ (.test (.localName true ['x'])) (.test (.localName true ['y'])))
+             (.cmp .eq (.test (.localName true ['z'])) (.num (.dec false 150 2))),
+       .fn1 .not (.cmp .lt (.test (.localName true ['a'])) (.cmp .lt (.num (.dec false 1 0)) (.num (.dec false 2 0))))]⟩,
+    ⟨.descendant, .text, [.num (.dec false 2 0)]⟩],
+   [⟨.attribute, .qprincipal true ['p'], []⟩]]
+
+example : Print.pathsOk printDemo = true := by decide +kernel
+example : Print.printPaths printDemo =
+    "child :: a [ ( @ x or @ y ) and @ z = 1.50 ] [ not ( @ a < ( 1 < 2 ) ) ] / descendant :: text () [ 2 ] | attribute :: p : *".toList := by
+  decide +kernel
+example : parseTokens (Print.pathsToks printDemo) = .ok printDemo := parse_print_tokens _ (by decide +kernel)
+
+/-- numerals read back as the numbers they print (the side condition `Print.numOk` on a few numbers) -/
+theorem numOk_examples :
+    Print.numOk (.dec false 0 0) = true ∧ Print.numOk (.dec false 2 0) = true ∧ Print.numOk (.dec false 150 2) = true ∧
+    Print.numOk (.dec false 5 3) = true ∧ Print.numOk (.dec false 12345 1) = true ∧ Print.numOk (.dec true 1 0) = false := by
   decide +kernel
 
 /-! ## Predicate evaluation -/
